@@ -86,27 +86,6 @@ def type_walk(F):
     return walk_adt, walk_tree, found, visited_adts, impls_by_trait
 
 
-def tree_of(F, root):
-    """a function, its closures (transitively) and the *new* helper functions they call (functions that did not exist when the
-    rules were written, e.g. a closure body extracted into a named function)"""
-    out, work = [], [root]
-    known = known_functions()
-    while work:
-        p = work.pop()
-        if p in out or p not in F.bodies:
-            continue
-        out.append(p)
-        b = F.bodies[p]
-        for q in sorted(F.bodies):
-            if q.startswith(p + "::{closure") and q not in out:
-                work.append(q)
-        for c in b.calls():
-            k = c.callee
-            if k and known and k in F.bodies and k not in known and "{closure" not in k:
-                work.append(k)
-    return [F.bodies[p] for p in out]
-
-
 def batch_bodies(F):
     """run, run_batch_*, their closures and new helpers (the code that runs on the worker pool)"""
     roots = [APP + "CompassApp::run", APP + "run_batch_with_responses", APP + "run_batch_without_responses"]
